@@ -44,15 +44,16 @@ type c20op struct {
 }
 
 type c20in struct {
-	Kind      string  `json:"kind"`
-	Max       int64   `json:"max"`
-	Interval  int64   `json:"interval_ns"`
-	StartSec  int64   `json:"start_sec"`
-	StartNsec int64   `json:"start_nsec"`
-	WhiteList string  `json:"white_list"`
-	Ops       []c20op `json:"ops,omitempty"`
-	Conc      *concIn `json:"conc,omitempty"`
-	Race      bool    `json:"race,omitempty"` // replay: run the concurrent scenarios in the -race child
+	Kind      string   `json:"kind"`
+	Max       int64    `json:"max"`
+	Interval  int64    `json:"interval_ns"`
+	StartSec  int64    `json:"start_sec"`
+	StartNsec int64    `json:"start_nsec"`
+	WhiteList string   `json:"white_list"`
+	Ops       []c20op  `json:"ops,omitempty"`
+	Conc      *concIn  `json:"conc,omitempty"`
+	Race      bool     `json:"race,omitempty"` // replay: run the concurrent scenarios in the -race child
+	Scenarios []concIn `json:"scenarios,omitempty"`
 }
 
 type c20obs struct {
@@ -171,10 +172,10 @@ func runCase(in *c20in) ([]c20obs, error) {
 // spec is the statement of C20 as a reference: epochs are cut where now - resetTime > interval,
 // inside an epoch the k-th call of an address gets k, passes iff k <= max or white-listed.
 type spec struct {
-	in     *c20in
-	reset  *big.Int
-	counts map[string]int64
-	resets int
+	in      *c20in
+	reset   *big.Int
+	counts  map[string]int64
+	resets  int
 	rejects int
 }
 
@@ -541,7 +542,14 @@ func replayC20(c *lib.Ctx) error {
 	if in.Conc != nil {
 		if in.Race {
 			rb := startRaceBuild(c)
-			runRaceChild(c, rb, []concIn{*in.Conc}, "replay")
+			scen := []concIn{*in.Conc}
+			if len(in.Scenarios) > 0 {
+				scen = in.Scenarios
+			}
+			runRaceChild(c, rb, scen, "replay")
+			for _, f := range c.Res.OracleFailures {
+				fmt.Printf("replay C20: %s: %s\n", f.Key, f.What)
+			}
 			return nil
 		}
 		if exe, err := os.Executable(); err == nil {
